@@ -289,6 +289,12 @@ class Hook:
             return sp.ImmutableMatrix(X.inv())
         if name == 'sum' and not args:
             return sum(list(X))
+        if name in ('minCoeff', 'maxCoeff') and not args:
+            return (sp.Min if name == 'minCoeff' else sp.Max)(*list(X))
+        if name in ('squaredNorm',) and not args:
+            return sum(x_ ** 2 for x_ in X)
+        if name in ('mean',) and not args:
+            return sum(list(X)) / sp.Integer(X.shape[0] * X.shape[1])
         if name in ('rows', 'size') and not args:
             return sp.Integer(X.shape[0] if name == 'rows' else X.shape[0] * X.shape[1])
         if name == 'cols' and not args:
